@@ -28,7 +28,7 @@ def shapedE : Expr → Bool
   | .lit _ | .var _ | .none => true
   | .host _ args | .call _ args | .ctor _ args | .list args => shapedEs args
   | .record perm fs => permOk perm (lenEs fs) && shapedEs fs
-  | .bin _ l r | .and l r | .or l r | .concat l r => shapedE l && shapedE r
+  | .bin _ l r | .eqH _ l r | .and l r | .or l r | .concat l r => shapedE l && shapedE r
   | .not e | .neg e | .assign _ e | .assignF _ _ e | .ret e | .accept e | .reject e | .try e | .some e | .field e _ => shapedE e
   | .cassign op _ e | .cassignF op _ _ e => op.isArith && shapedE e
   | .ite c t e => shapedE c && shapedB t && shapedB e
@@ -83,6 +83,11 @@ theorem lowerE_total : ∀ (e : Expr) (c : Nat), shapedE e = true → (lowerE e 
     obtain ⟨⟨a, c1⟩, h1⟩ := Option.isSome_iff_exists.mp (lowerParts_total ps (.t c) (c + 1) (by simpa [shapedE] using h))
     simp [lowerE, h1]
   | .bin op l r, c, h => by
+    simp [shapedE] at h
+    obtain ⟨⟨cl, vl, c1⟩, h1⟩ := Option.isSome_iff_exists.mp (lowerE_total l c h.1)
+    obtain ⟨⟨cr, vr, c2⟩, h2⟩ := Option.isSome_iff_exists.mp (lowerE_total r (atvNext vl c1) h.2)
+    simp [lowerE, h1, h2]
+  | .eqH ne l r, c, h => by
     simp [shapedE] at h
     obtain ⟨⟨cl, vl, c1⟩, h1⟩ := Option.isSome_iff_exists.mp (lowerE_total l c h.1)
     obtain ⟨⟨cr, vr, c2⟩, h2⟩ := Option.isSome_iff_exists.mp (lowerE_total r (atvNext vl c1) h.2)
